@@ -709,6 +709,10 @@ func Run(ctx context.Context, node Node, shared *SharedStore) (Action, error) {
 		maxRetries = retryable.GetMaxRetries()
 		wait = retryable.GetWait()
 	}
+	// A budget below one still means one attempt: exec must never be skipped.
+	if maxRetries < 1 {
+		maxRetries = 1
+	}
 
 	// Exec phase with retries
 	var execResult any
